@@ -43,9 +43,12 @@ ASSUMPTIONS = [
 KNOWN = {
     # Fourier._set_modes builds the axis with np.arange(-n/2*dk, n/2*dk, dk); float
     # rounding of the end point yields n+1 wave numbers for ~4 % of (period, anis, n)
-    # (e.g. period=1.9, mode_no=6 -> 7 modes).  The stored odd count is re-used by the
-    # next period / model change and then gives half-integer multiples of dk: the
-    # field is no longer periodic (tags kind="mode_count").
+    # (e.g. period=1.0, mode_no=26 -> 27 modes).  The stored odd count is re-used by the
+    # next period / model change (SRF(Gaussian(dim=1, len_scale=.1), generator="Fourier",
+    # period=1., mode_no=26); srf.model.len_scale = .2) and then gives half-integer
+    # multiples of dk: f(x + L) = -f(x), the field is no longer periodic (tags kind="mode_count").
+    # Histories stop at the first state with a surplus mode; fresh objects are still checked
+    # for periodicity with the n+1 grid.
     "arange_extra_mode": True,
     # update(period=new, mode_no=<odd>) raises ValueError after the new period and
     # wave number spacing have been stored: generator.period reports the new period
@@ -410,7 +413,15 @@ def _periodic(srf, ref, case, rec, tags, where, seed=None):
         f = lib(srf, pos, seed=seed, _what="SRF call", _tags=tags)
     f = np.asarray(f, dtype=float).reshape(-1)
     require(f.shape[0] == pos.shape[1], f"{where}: field has {f.shape[0]} values for {pos.shape[1]} points", dict(tags, kind="shape"))
-    require(bool(np.all(np.isfinite(f))), f"{where}: field is not finite", dict(tags, kind="nonfinite_field"))
+    if not np.all(np.isfinite(f)):
+        if (
+            ref.spec["cls"] in HANKEL
+            and not np.all(np.isfinite(srf.generator._spectrum_factor))
+            and _known("hankel_negative_spectrum", case)
+        ):
+            rec.exclude("hankel_negative_spectrum")
+            return None
+        raise Violation(f"{where}: field is not finite", dict(tags, kind="nonfinite_field"))
     # Tolerance.  Mathematically the phases <k_j, x_iso> at x and x + m L_i a_i differ by 2 pi * integer.
     # In floating point the wave numbers (multiples of dk), the shifted position and its isometrisation carry
     # a few ulp, so each phase is off by ~ eps |k| |x_iso|; the error of the sum is at most
@@ -461,6 +472,8 @@ def _evaluate(srf, ref, case, rec, tags, where, seed=None, history=False):
         return False, False
     with quiet():
         varies = _periodic(srf, ref, case, rec, tags, where, seed=seed)
+    if varies is None:
+        return False, False
     _consistent(gen, dim, tags, where + " (after call)")
     exact = _mode_counts(gen, ref, case, rec, tags, where)
     if not exact and history:
@@ -674,6 +687,6 @@ def _nontrivial_history(case):
 
 
 SUBS = [
-    Sub("inputs", gen_inputs, check_inputs, quick=800, thorough=30000, shards_quick=4, shards_thorough=8),
-    Sub("history", gen_history, check_history, quick=600, thorough=20000, shards_quick=6, shards_thorough=8),
+    Sub("inputs", gen_inputs, check_inputs, quick=2400, thorough=40000, shards_quick=6, shards_thorough=8),
+    Sub("history", gen_history, check_history, quick=2000, thorough=24000, shards_quick=8, shards_thorough=8, nontrivial=_nontrivial_history),
 ]
